@@ -514,4 +514,10 @@ theorem check_ne_ok_iff (k : Kind) (F : Flags) (b : Block) :
   | some e => simp
   | none => cases errsBlock F b <;> simp
 
+/-- (helper, moved out of Props after audit F4: a Boolean identity): the flags named in a `UnitaryCallError` are exactly the
+    required flags the callee lacks. -/
+theorem missing_has (F g : Flags) (k : FlagKind) :
+    (F.and g.compl).has k = (F.has k && !g.has k) := by
+  cases k <;> rfl
+
 end GuppyVerif.Unitary
